@@ -197,6 +197,14 @@ def _first_leaf_kind(space):
     return _leaf_kind(space)
 
 
+def _first_leaf_shape(space):
+    from gymnasium import spaces
+
+    while isinstance(space, (spaces.Dict, spaces.Tuple)):
+        space = next(iter(space.spaces.values())) if isinstance(space, spaces.Dict) else space.spaces[0]
+    return tuple(space.shape)
+
+
 def _container_kind(space):
     from gymnasium import spaces
 
@@ -765,11 +773,28 @@ def _vect_dim(rec, space, singles, spec):
     ma_space = spaces.Dict({a: space for a in AGENTS})
     for mode, idx, want in (("single", [0], 1), ("b1", [B - 1], 1), ("batch", list(range(B)), B)):
         for container in ("numpy", "torch"):
-            for wrap in ("plain", "agents"):
+            for wrap in ("plain", "agents", "reversed_keys", "agents_mixed_rank"):
                 obs = present(space, [singles[j] for j in idx], mode, container)
                 sp = space
                 if wrap == "agents":
                     obs, sp = {a: obs for a in AGENTS}, ma_space
+                elif wrap == "reversed_keys":
+                    # the observation dict in another key order than the (sorted) space
+                    if not isinstance(space, spaces.Dict) or len(space.spaces) < 2:
+                        continue
+                    obs = dict(reversed(list(obs.items())))
+                elif wrap == "agents_mixed_rank":
+                    # agents whose spaces differ in rank, handed over in the environment's order (not sorted): the first
+                    # observation must be judged against ITS OWN space
+                    rank1 = len(_first_leaf_shape(space)) == 1
+                    other = spaces.Box(0.0, 1.0, (2, 3, 3), np.float32) if rank1 else spaces.Box(-1.0, 1.0, (3,), np.float32)
+                    o_obs = np.zeros(((want,) if mode != "single" else ()) + other.shape, np.float32)
+                    if container == "torch":
+                        import torch
+
+                        o_obs = torch.from_numpy(o_obs)
+                    sp = spaces.Dict({"abe_0": other, "zed_0": space})
+                    obs = {"zed_0": obs, "abe_0": o_obs}
                 rec.hit("vect_dim_checks")
                 ctx = {"mode": mode, "container": container, "space": spec, "leaf": leaf, "wrapped": wrap,
                        "in": _container_kind(space)}
